@@ -25,6 +25,14 @@ Input forms (case['form'], absent = everything plain): how the numbers are hande
   cutoff  float / npfloat (numpy.float64); a whole cutoff also int / npint
   sizes   int / npint64 / npint32
   pbc     list / tuple / nparray (of bool)
+
+Length scale (cell['scale'], absent = 1): the whole geometric input of a system - cell vectors, origin, positions and
+cutoff - is expressed in a length unit 10^k times the angstrom-like one, k in -12..+6 (1e-10, i.e. SI metres,
+favoured; exactly 1 in about half of the systems).  The generic kinds are CONSTRUCTED in the scaled unit (cell vectors
+first, then widths, cutoff, positions from them), so nothing is rescaled afterwards.  Dyadic systems use a power of two
+(2^-33 ~ 1.2e-10 favoured, 2^-40 .. 2^30; whole-number systems 2^0 .. 2^30 only) so that every sum, square and
+comparison still rounds - not at all - exactly as at scale 1 and the boundary '<' stays decidable exactly.  The cap on
+the number of bins (MAXBINS) is a count, the ratio of superbox extent to cutoff: scale free.
 """
 import numpy as np
 from hypothesis import strategies as st
@@ -66,6 +74,10 @@ CUTFORMS = st.sampled_from(['float'] * 3 + ['npfloat'])
 WHOLE_CUTFORMS = st.sampled_from(['float', 'npfloat', 'int', 'int', 'npint'])
 SIZEFORMS = st.sampled_from(['int'] * 3 + ['npint64', 'npint32'])
 PBCFORMS = st.sampled_from(['list'] * 2 + ['tuple', 'nparray'])
+# overall length scale: decimal exponents for the generic kinds, binary exponents for the dyadic kind
+_SCALE10 = st.sampled_from([0] * 10 + [-10] * 4 + [-12, -11, -9, -8, -6, -3, -1, 1, 3, 6])
+_SCALE2 = st.sampled_from([0] * 9 + [-33] * 4 + [-40, -36, -30, -27, -20, -10, -3, 3, 20])
+_SCALE2_WHOLE = st.sampled_from([0] * 5 + [3, 10, 20, 20, 30])
 NATOMS = {'sparse': st.sampled_from([1, 2, 2, 3, 3, 4, 4, 5, 6]), 'dyadic': st.integers(2, 6), 'targeted': st.integers(2, 4), 'faces': st.integers(1, 8),
           'binedge': st.integers(2, 8), 'cluster': st.integers(40, 70)}
 
@@ -130,8 +142,17 @@ def dyadic_systems(draw):
         whole_cut = case['cutoff'] == np.rint(case['cutoff'])
         case['form'] = {'pos': draw(WHOLE_POSFORMS), 'cutoff': draw(WHOLE_CUTFORMS if whole_cut else CUTFORMS),
                         'sizes': draw(SIZEFORMS), 'pbc': draw(PBCFORMS)}
+        e = draw(_SCALE2_WHOLE)
     else:
         case['form'] = {'pos': draw(DYADIC_POSFORMS), 'cutoff': draw(CUTFORMS), 'sizes': draw(SIZEFORMS), 'pbc': draw(PBCFORMS)}
+        e = draw(_SCALE2)
+    if e:
+        # overall length scale, a power of two: exact, no rounding decision changes (gens.cell_vects / cell_origin
+        # multiply lengths and origin by cell['scale'])
+        f = 2.0 ** e
+        c['scale'] = f
+        case['pos'] = [[x * f for x in p] for p in case['pos']]
+        case['cutoff'] = case['cutoff'] * f
     return case
 
 
@@ -141,6 +162,9 @@ def systems(draw, kind=None):
     if kind == 'dyadic':
         return draw(DYADIC)
     c = draw(CELLS)
+    k10 = draw(_SCALE10)
+    if k10:
+        c['scale'] = float('1e%d' % k10)      # V, o below - and everything derived from them - are in the scaled unit
     pbc = list(draw(gens.pbcs))
     V, o = gens.cell_vects(c), gens.cell_origin(c)
     inv = np.linalg.inv(V)
